@@ -24,9 +24,9 @@ def short(t):
 
 
 class Model:
-    def __init__(self, program):
+    def __init__(self, program, std=None):
         self.p = program
-        self.std = program.primary_std()
+        self.std = std or program.primary_std()
         self.fns = list(program.functions(self.std))
         self.by_tname = defaultdict(list)
         for f in self.fns:
